@@ -23,7 +23,7 @@ def render(spec, run):
     elif spec.get("fault") or spec.get("first_device") or spec.get("closer") or spec.get("open_fails"):
         return None, "fault / second attempt / concurrent close: outside the dialogue model"
     dev = spec.get("device", {})
-    if dev.get("silent_after") is not None or (dev.get("swallow_first") and kind == "subunit") or dev.get("eof_after_bytes") is not None or dev.get("drop_at") is not None or dev.get("cut_reply"):
+    if dev.get("silent_after") is not None or (dev.get("swallow_first") and kind == "subunit") or dev.get("eof_after_bytes") is not None or dev.get("drop_at") is not None or dev.get("cut_reply") or dev.get("pause") or dev.get("mute"):
         return None, "device is not a function of the command text"
     tr = run.trace
     lib = {hi for _, hi, _ in library_probes(tr)}
